@@ -105,6 +105,11 @@ theorem reduceInit_over (o : AOp) (a v : NV) (h : npReduceInit o a = .ok v) :
   cases a <;> simp_all [npReduceInit, isAtom]
   all_goals (split at h <;> simp_all)
 
+theorem reduceNumeric_over (o : AOp) (a v : NV) (h : npReduceNumeric o a = .ok v) :
+    (if a == NV.unmod then Res.ok NV.unmod else if isAtom a then Res.ok a else overMinMax o a) = .ok v := by
+  cases a <;> simp_all [npReduceNumeric, npReduceInit, isAtom, overMinMax, ufuncReduce]
+  all_goals (split at h <;> simp_all)
+
 theorem reduce_node (op : String) (t : String × String) (f : NV → Res) (a v : NV)
     (hop : op ∈ reduceScanOps) (ht : numpyTables.reduce.lookup op = some t) (hf : unSem t = some f)
     (h : f a = .ok v) : kgOver op a = .ok v := by
@@ -112,10 +117,10 @@ theorem reduce_node (op : String) (t : String × String) (f : NV → Res) (a v :
   rcases hop with rfl | rfl | rfl | rfl <;>
     simp [numpyTables, numpyReduce, List.lookup] at ht <;> subst ht <;>
     simp [unSem] at hf <;> subst hf
-  · have := reduceInit_over .min a v h; simpa [kgOver] using this
+  · have := reduceNumeric_over .min a v h; simpa [kgOver] using this
   · have := reduceInit_over .mul a v h; simpa [kgOver] using this
   · have := reduceInit_over .add a v h; simpa [kgOver] using this
-  · have := reduceInit_over .max a v h; simpa [kgOver] using this
+  · have := reduceNumeric_over .max a v h; simpa [kgOver] using this
 
 theorem accumulate_scan (o : AOp) (a v : NV) (h : npAccumulate o a = .ok v) :
     (if a == NV.unmod then Res.ok NV.unmod else if isAtom a then Res.ok a else ufuncAccumulate o a) = .ok v := by
